@@ -2082,7 +2082,7 @@ function RecordType:update_fields()
     if offset == 0 then
       self.is_empty = true
       offset = typedefs.emptysize
-      align = offset
+      align = math.max(align, offset) -- zero sized fields still impose their alignment
     else
       self.is_empty = nil
     end
